@@ -1,9 +1,47 @@
 // ===================== ristretto.rs support: dalek constants, the masking base points =====================
 pub uninterp spec fn ristretto_basepoint() -> P;
-pub uninterp spec fn masking_point(k: int) -> P;     // from_uniform_bytes(SHA3-512("RISTRETTO_MASKING_BASEPOINT_" || decimal(k + 1))), established by the statics of ristretto.rs
+// the k-th masking base point: from_uniform_bytes(SHA3-512("RISTRETTO_MASKING_BASEPOINT_" || decimal(k + 1))) - established by the statics of ristretto.rs (unit pedersen_statics)
+pub uninterp spec fn decimal_bytes(n: nat) -> Seq<u8>;     // the ASCII decimal digits of n (what `usize::to_string` produces)
+pub open spec fn masking_label(n: nat) -> Seq<u8> { "RISTRETTO_MASKING_BASEPOINT_".spec_bytes() + decimal_bytes(n) }
+pub open spec fn masking_point(k: int) -> P { p_from_uniform(sha3_512(masking_label((k + 1) as nat))) }
 #[verifier::external_body]
 pub fn v_basepoint() -> (r: P) ensures r == ristretto_basepoint() { unimplemented!() }
 #[verifier::external_body]
 pub fn v_basepoint_compressed() -> (r: CP) ensures r == p_compress(ristretto_basepoint()) { unimplemented!() }
 pub assume_specification<T: Clone> [<[T] as std::borrow::ToOwned>::to_owned] (s: &[T]) -> (r: Vec<T>)
     ensures r@ == s@;
+// once_cell::sync::OnceCell::get_or_init on a function-local static: the reference handed out points to a value some call of the initialiser returned
+// (R-ONCE: `static INSTANCE: OnceCell<T> = OnceCell::new(); INSTANCE.get_or_init(f)` is extracted as `v_once_init(f)`; the initialisers captured nothing)
+#[verifier::external_body]
+pub fn v_once_init<T, F: FnOnce() -> T>(f: F) -> (r: &'static T)
+    requires f.requires(()),
+    ensures f.ensures((), *r),
+{ unimplemented!() }
+impl CP {
+    #[verifier::external_body]
+    pub fn identity() -> (r: CP) { unimplemented!() }    // curve25519_dalek::traits::Identity for CompressedRistretto; the value is overwritten before it is read
+}
+// R-STRCAT: `<str>.to_owned() + &<usize>.to_string()` is extracted as `<str>.v_concat_decimal(<usize>)`; the String it builds is seen only through `as_bytes`
+#[verifier::external_body]
+pub struct VLabel { s: String }
+impl VLabel {
+    pub uninterp spec fn bytes(&self) -> Seq<u8>;
+    #[verifier::external_body]
+    pub fn as_bytes(&self) -> (r: &[u8]) ensures r@ == self.bytes() { unimplemented!() }
+}
+pub trait VStrExt { fn v_concat_decimal(&self, n: usize) -> (r: VLabel); }
+impl VStrExt for str {
+    #[verifier::external_body]
+    fn v_concat_decimal(&self, n: usize) -> (r: VLabel) ensures r.bytes() == self.spec_bytes() + decimal_bytes(n as nat) { unimplemented!() }
+}
+// `(a..)`: the unbounded range, as far as a zip with a finite iterator can see it (R-RANGEFROM: `(a ..)` is extracted as `v_range_from(a)`)
+#[verifier::external_body]
+pub fn v_range_from(a: usize) -> (r: VSeqIter<usize>)
+    ensures r.items() == Seq::new((usize::MAX - a) as nat, |k: int| (a + k) as usize)
+{ unimplemented!() }
+impl P {
+    // CurvePointProtocol::hash_from_bytes_sha3_512 (default method; under contract in unit gens_chain: C11.hash_to_point...)
+    #[verifier::external_body]
+    pub fn hash_from_bytes_sha3_512(input: &[u8]) -> (r: P) ensures r == p_from_uniform(sha3_512(input@)) { unimplemented!() }
+}
+impl Copy for P {}     // in ristretto.rs P is dalek's RistrettoPoint, which is Copy
